@@ -10,14 +10,18 @@ open Dawgs.C18 Dawgs.C19
 
 abbrev P := String
 
+def defaultOpts : Opts :=
+  { driver := "fake", targets := [], outputDir := "", force := false, resume := false, scrub := false, salt := "",
+    scrubConfig := "default", compression := "none", zstdLevel := 3, shardSize := 1, batchSize := 1, progressInterval := 0,
+    progressSet := false }
+
 structure St where
   graphs : List (Graph P) := []
-  ident : Option Identity := none
+  o : Opts := defaultOpts                       -- every setting of the call
+  hasOpts : Bool := false
+  targetNames : Option (List String) := none     -- none = every declared graph in declaration order
   fs : FS P := []
   dirCodec : String := ""     -- codec of the fresh dump that created the directory
-
-def identOf (st : St) (codec : String) (batch shard : Nat) : Identity :=
-  { graphs := st.graphs.map (·.name), codec := codec, batch := batch, shard := shard }
 
 def renderFPath (codec : String) : FPath → String
   | .ckpt => ".retriever-checkpoint.json"
@@ -166,19 +170,39 @@ def step (st : St) (ts : List String) : St × String :=
     match batch.toNat?, shard.toNat? with
     | some b, some s =>
       if b < 1 || s < 1 || !(["none", "gzip", "zstd"].contains codec) then (st, "bad-op")
-      else ({ st with ident := some (identOf st codec b s) }, "ok")
+      else ({ st with o := { st.o with compression := codec, batchSize := b, shardSize := s }, hasOpts := true }, "ok")
+    | _, _ => (st, "bad-op")
+  | ["set", field, value] =>
+    let num := value.toNat?
+    match field, num with
+    | "driver", _ => ({ st with o := { st.o with driver := value } }, "ok")
+    | "zstdlevel", some n => if n < 1 then (st, "bad-op") else ({ st with o := { st.o with zstdLevel := n } }, "ok")
+    | "scrub", _ =>
+      if value == "full" then ({ st with o := { st.o with scrub := true } }, "ok")
+      else if value == "none" then ({ st with o := { st.o with scrub := false } }, "ok") else (st, "bad-op")
+    | "salt", _ => ({ st with o := { st.o with salt := if value == "-" then "" else value } }, "ok")
+    | "rules", _ => ({ st with o := { st.o with scrubConfig := value } }, "ok")
+    | "targets", _ => ({ st with targetNames := if value == "-" then none else some (value.splitOn ",") }, "ok")
+    | "progress", some n => ({ st with o := { st.o with progressInterval := n } }, "ok")
+    | "progresscb", _ => ({ st with o := { st.o with progressSet := value == "1" } }, "ok")
+    | "force", _ => ({ st with o := { st.o with force := value == "1" } }, "ok")
     | _, _ => (st, "bad-op")
   | _ =>
-  match st.ident with
-  | none => (st, "bad-op")
-  | some ident0 =>
-  if st.graphs.isEmpty then (st, "bad-op") else
-  -- the graph list may have grown since `opts` (it does not in generated cases); keep names current
-  let ident : Identity := { ident0 with graphs := st.graphs.map (·.name) }
+  if !st.hasOpts || st.graphs.isEmpty then (st, "bad-op") else
+  -- the call: targets are the requested names in order; the database the dump sees is those graphs
+  let targets := st.targetNames.getD (st.graphs.map (·.name))
+  let o : Opts := { st.o with targets := targets }
+  let ident : Identity := identityOf o
+  let invalidFresh := o.scrub && o.salt == ""            -- DumpOptions.Validate
+  let invalidResume := invalidFresh || o.force
   let codec := st.dirCodec
-  let db := st.graphs
-  let wf := db.all (fun g => g.edges.all (fun e => g.nodes.any (·.id == e.src) && g.nodes.any (·.id == e.dst)))
+  let db : List (Graph P) := targets.map (fun n => (st.graphs.find? (·.name == n)).getD { name := n, nodes := [], edges := [] })
+  let wf := st.graphs.all (fun g => g.edges.all (fun e => g.nodes.any (·.id == e.src) && g.nodes.any (·.id == e.dst)))
   if !wf && ["plan", "crash", "readfault", "resume", "resumefault", "final"].contains (ts.headD "") then (st, "bad-db") else
+  if invalidFresh && ["plan", "final"].contains (ts.headD "") then
+    (st, if ts.headD "" == "plan" then "err options-invalid" else "err reference-dump options-invalid") else
+  if invalidFresh && ["crash", "readfault"].contains (ts.headD "") then ({ st with fs := [], dirCodec := ident.codec }, "err options-invalid | -") else
+  if invalidResume && ["resume", "resumefault"].contains (ts.headD "") then (st, "refused options-invalid | " ++ summary codec st.fs) else
   match ts with
   | ["plan"] =>
     let ops := dumpOps db ident
